@@ -182,9 +182,11 @@ def parse_comment_from_sql_segment(sql_segment):
     will be stripped and returned in the case that there are multiple comments within the supplied sql_segment.
 
     If the either of the two above use cases above are found, then they will be parsed in the following manner:
-    1.) --: The comment will be parsed from the "--" until the newline "\n" character is found:
+    1.) --: The comment will be parsed from the "--" until the newline "\n" character is found (or, if there is
+        none, until the end of the sql_segment):
         ... [-- ... \n] ...
-    2.) /*: THe comment will be parsed from the "/*" until the matching "*/" character sequence is found:
+    2.) /*: THe comment will be parsed from the "/*" until the matching "*/" character sequence is found (or, if
+        there is none, until the end of the sql_segment):
         ... [/* ... */] ...
     Note:  The "/* ... */" comment tags can have new lines within them.
 
@@ -207,8 +209,12 @@ def parse_comment_from_sql_segment(sql_segment):
     # Check if the sql segment starts with "--"
     if sql_segment.startswith("--"):
 
-        comment = sql_segment[: sql_segment.index("\n") + 1]
-        remaining_sql_segment = sql_segment[sql_segment.index("\n") + 1 :]
+        # The comment ends with the newline or, when there is none, with the end of the statement
+        newline_index = sql_segment.find("\n")
+        comment_end = len(sql_segment) if newline_index == -1 else newline_index + 1
+
+        comment = sql_segment[:comment_end]
+        remaining_sql_segment = sql_segment[comment_end:]
 
         return comment, remaining_sql_segment
 
@@ -216,8 +222,12 @@ def parse_comment_from_sql_segment(sql_segment):
     elif sql_segment.startswith("/*"):
 
         # (The closing "*/" cannot share its "*" with the opening "/*")
-        comment = sql_segment[: sql_segment.index("*/", 2) + 2]
-        remaining_sql_segment = sql_segment[sql_segment.index("*/", 2) + 2 :]
+        # (A comment that is not closed runs to the end of the statement, as it does for SQLite)
+        closing_index = sql_segment.find("*/", 2)
+        comment_end = len(sql_segment) if closing_index == -1 else closing_index + 2
+
+        comment = sql_segment[:comment_end]
+        remaining_sql_segment = sql_segment[comment_end:]
 
         return comment, remaining_sql_segment
 
